@@ -58,6 +58,10 @@ func runC05(c *Ctx) {
 	parallel(nWS, 14, func(i int) {
 		r := root.Fork(uint64(i))
 		sw := GenScopeWS(r, ScopeCfg{JoinPct: -1, GluePct: -1})
+		if r.Fork(0x726f6f74).Chance(1, 8) {
+			sw.Reroot([]string{"rootA", "rootB"}) // the files are spread over two workspace folders next to each other
+			c.Count("multi_root_workspaces", 1)
+		}
 		c.Eval(1)
 		checkC05WS(c, sw, fmt.Sprintf("c05w%d", i))
 		if i < 2 {
